@@ -543,7 +543,18 @@ def _live_once(case):
         sk.close()
 
 
+def _can_shorten_timeouts() -> bool:
+    """The live lane shortens the timeouts by setting the module constants; a tree that keeps them elsewhere cannot be
+    driven in wall-clock time within a check's budget (the virtual-time lanes decide the property for it)."""
+    import nauyaca.server.protocol as sp
+    import nauyaca.server.tls_protocol as tp
+
+    return isinstance(getattr(sp, "REQUEST_TIMEOUT", None), (int, float)) and isinstance(getattr(tp, "HANDSHAKE_TIMEOUT", None), (int, float))
+
+
 def run_live(case: dict):
+    if not _live15 and not _can_shorten_timeouts():
+        return ok(skipped="module constants REQUEST_TIMEOUT / HANDSHAKE_TIMEOUT not found: timeouts cannot be shortened")
     r = _live_once(case)
     if r.get("closed_at") is None and "error" not in r:
         r = _live_once(case)  # one retry: wall-clock lanes must not alarm on a scheduling hiccup
